@@ -251,7 +251,30 @@ pub fn evaluate(input: &Input, bytes: &[u8], rng: &mut Rng, tally: &mut Tally) -
     }
     // what the reader built, rendered by this harness from the structured view (chrono's own
     // Debug output is used for messages only)
-    let built = ZoneModel::from_view(&z.view());
+    let view = z.view();
+    // chrono hands designations out as `&str` without re-checking them: a zone holding bytes
+    // that are not UTF-8 means the reader has built an invalid `str` (undefined behaviour)
+    {
+        use chrono::__verif::RuleView;
+        let mut names: Vec<&Option<String>> = view.types.iter().map(|t| &t.2).collect();
+        match &view.rule {
+            Some(RuleView::Fixed(t)) => names.push(&t.2),
+            Some(RuleView::Alternate(s, d, ..)) => {
+                names.push(&s.2);
+                names.push(&d.2);
+            }
+            None => {}
+        }
+        for n in names.into_iter().flatten() {
+            if std::str::from_utf8(std::hint::black_box(n.as_bytes())).is_err() {
+                return prob(
+                    "accepted-zone-invalid-str".into(),
+                    format!("{}: accepted with a designation whose bytes {:02x?} are not UTF-8, and handed out as a str", input.what, n.as_bytes()),
+                );
+            }
+        }
+    }
+    let built = ZoneModel::from_view(&view);
     let dbg = built.debug();
     if let (Expect::Accept, Some(want)) = (input.expect, &input.expected_debug) {
         if dbg != *want {
@@ -305,7 +328,7 @@ fn reference_reading(bytes: &[u8]) -> Option<ZoneModel> {
 
 // ---------------------------------------------------------------- fault injectors (TZif)
 
-pub const FAULT_KINDS: [&str; 27] = [
+pub const FAULT_KINDS: [&str; 29] = [
     "magic_overwritten",
     "version_unsupported",
     "trailing_bytes_after_v1",
@@ -333,6 +356,8 @@ pub const FAULT_KINDS: [&str; 27] = [
     "utoff_extreme",
     "time_extreme",
     "leap_extreme",
+    "footer_non_ascii_blank",
+    "abbr_non_ascii_byte",
 ];
 
 const BAD_FOOTERS: [&str; 12] = [
@@ -450,6 +475,36 @@ pub fn inject(
             let k = rng.usize(lay.typecnt);
             out[lay.ttinfo.0 + k * 6 + 5] = start as u8;
             Some((out, Expect::Reject, format!("abbreviation table left unterminated, type {} points at its tail", k)))
+        }
+        "footer_non_ascii_blank" => {
+            // the rule between the two newlines padded with a blank that is not an ASCII one
+            // (vertical tab, NEL, no-break space, em space, ideographic space): malformed
+            if !v2 {
+                return None;
+            }
+            let (a, e) = lay.footer;
+            let pad = *rng.pick(&["\x0b", "\u{85}", "\u{a0}", "\u{2003}", "\u{3000}", "\u{1680}"]);
+            let at = if rng.chance(1, 2) { a + 1 } else { e - 1 };
+            let tail = out.split_off(at);
+            out.extend_from_slice(pad.as_bytes());
+            out.extend_from_slice(&tail);
+            Some((out, Expect::Reject, format!("footer padded with {:?} at {} newline", pad, if at == a + 1 { "the opening" } else { "the closing" })))
+        }
+        "abbr_non_ascii_byte" => {
+            // one byte of a designation in use replaced by a byte above 0x7f. Whether such a file
+            // is accepted is not laid down; but a zone built from it must not hand out its bytes
+            // as a `str` (checked for every accepted zone in `evaluate`)
+            let k = rng.usize(lay.typecnt);
+            let i = out[lay.ttinfo.0 + k * 6 + 5] as usize;
+            let start = lay.chars.0 + i;
+            if start >= lay.chars.1 || out[start] == 0 {
+                return None;
+            }
+            let len = out[start..lay.chars.1].iter().position(|&c| c == 0).unwrap_or(lay.chars.1 - start);
+            let j = start + rng.usize(len);
+            let b = *rng.pick(&[0x80u8, 0xaa, 0xb5, 0xba, 0xc0, 0xc9, 0xe9, 0xf8, 0xff]);
+            out[j] = b;
+            Some((out, Expect::Survive, format!("byte {} of the designation of type {} set to {:#04x}", j - start, k, b)))
         }
         "footer_leading_nl_missing" | "footer_trailing_nl_missing" | "footer_nul_inside" | "footer_out_of_range_rule" => {
             if !v2 {
@@ -696,6 +751,12 @@ fn out_of_range_variants(rule: &Rule, extended: bool, rng: &mut Rng) -> Vec<(Str
         ("M5.2.3", "J0", "field_julian_out_of_range"),
         ("M5.2.3", "J366", "field_julian_out_of_range"),
         ("M5.2.3", "366", "field_julian_out_of_range"),
+        // text handling: the day letters are upper case, digits are the ASCII ones
+        ("M5.2.3", "m5.2.3", "field_letter_case"),
+        ("M5.2.3", "j60", "field_letter_case"),
+        ("M5.2.3", "M5.2.\u{ff13}", "field_non_ascii_digit"),
+        ("M5.2.3", "M\u{665}.2.3", "field_non_ascii_digit"),
+        ("M5.2.3", "M5 .2.3", "field_inner_blank"),
     ] {
         if let Some(x) = replace_first(&s, from, to) {
             out.push((x, kind.to_string()));
@@ -717,6 +778,9 @@ fn out_of_range_variants(rule: &Rule, extended: bool, rng: &mut Rng) -> Vec<(Str
         let (name, rest) = base.split_at(pos);
         if !name.starts_with('<') && name.len() >= 3 {
             out.push((format!("{}{}", &name[..2], rest), "name_too_short".to_string()));
+            // an unquoted name is ASCII letters only
+            out.push((format!("\u{c5}{}{}", &name[1..], rest), "name_non_ascii".to_string()));
+            out.push((format!("{}\u{e9}{}", name, rest), "name_non_ascii".to_string()));
             let after_off = rest.find(|c: char| c.is_ascii_alphabetic() || c == '<').unwrap_or(rest.len());
             out.push((format!("{}{}", name, &rest[after_off..]), "offset_missing".to_string()));
         }
